@@ -285,13 +285,6 @@ def k4_edge_period(req, out):
     return bool(p) and all(kind == "edge-crash" for kind, _ in p)
 
 
-def f8_week_pattern_9999(req, out):
-    """F8: week patterns of year 9999 from W52 on (W52 ends on 10000-01-02; W53.. do not exist) panic"""
-    if not req.startswith("period-pattern ") or out != "crash":
-        return False
-    return re.fullmatch(rb"9999-W(5[2-9]|[6-9][0-9])", unhx(req.split(" ")[1])) is not None
-
-
 # ----------------------------------------------------------------------------- generators
 
 QUICK_YEARS = [0, 1, 2, 3, 4, 5, 99, 100, 101, 399, 400, 401, 1582, 1600, 1699, 1700, 1752, 1800, 1899, 1900, 1901,
